@@ -15,6 +15,7 @@ Why(e) == IF e.panic THEN "panic"
           ELSE IF ~IsSubseq(e.reqs, Chain(W, e.url, e.budget)) THEN "requests are not the hops of the redirect chain"
           ELSE IF e.res.ok /\ ~Fresh(W, e.url, e.kind, e.budget).ok THEN "document accepted where the reference demands an error"
           ELSE IF ~e.res.ok /\ Fresh(W, e.url, e.kind, e.budget).ok THEN "error where the reference yields a document"
+          ELSE IF e.res.ok /\ e.srcfrag # SrcFrag(W, e.url, e.frag) THEN "reported source carries a fragment that is not its own"
           ELSE "wrong document or source"
 Step == /\ l <= Len(Log) /\ l' = l + 1
         /\ LET e == Log[l] IN
@@ -23,10 +24,10 @@ Step == /\ l <= Len(Log) /\ l' = l + 1
              [] e.ev = "fetch" /\ ~skip ->
                   \* the implementation-shaped model runs alongside: its cache is threaded through the session and
                   \* its prediction (result and exact requests) is compared as drift, never as a verdict
-                  LET g == GetM("fixed", W, cap, cache, e.url, e.kind, e.budget) IN
+                  LET g == GetF("fixed", W, cap, cache, e.url, e.kind, e.budget, e.frag) IN
                   /\ cache' = g.cache
                   /\ drift' = IF g.res = e.res /\ g.reqs = e.reqs THEN drift ELSE Append(drift, l)
-                  /\ IF ~e.panic /\ FetchOK(W, e.url, e.kind, e.budget, e.res, e.reqs)
+                  /\ IF ~e.panic /\ FetchOK(W, e.url, e.kind, e.budget, e.res, e.reqs) /\ (e.res.ok => e.srcfrag = SrcFrag(W, e.url, e.frag))
                      THEN UNCHANGED <<sid, skip, bad, W, cap>>
                      ELSE /\ bad' = Append(bad, [sid |-> sid, line |-> l, why |-> Why(e)])
                           /\ skip' = TRUE /\ UNCHANGED <<sid, W, cap>>
